@@ -13,7 +13,7 @@ import ast
 from fractions import Fraction
 
 from .lnodes_model import LNODES, LClass
-from .model import AnalysisError, Repo, dotted
+from .model import AnalysisError, Repo, const_value, dotted
 
 
 class Raised(Exception):
@@ -213,6 +213,32 @@ class Interp:
             modname, fn = tgt.rsplit(".", 1)
             if modname in self.repo.modules and fn in self.repo.modules[modname].funcs:
                 return self.repo.modules[modname].funcs[fn]
+        return None
+
+    def resolve_module(self, name: str):
+        m = self.cur()
+        if m is None:
+            return None
+        tgt = m.imports.get(name)
+        if tgt in self.repo.modules and tgt != LNODES:
+            return _ModRef(self.repo.modules[tgt])
+        return None
+
+    def resolve_record(self, name: str):
+        """A NamedTuple class of a repo module visible under `name`: constructing it gives a record Node."""
+        m = self.cur()
+        if m is None:
+            return None
+        c = m.classes.get(name)
+        if c is None:
+            tgt = m.imports.get(name)
+            if tgt and "." in tgt:
+                modname, cn = tgt.rsplit(".", 1)
+                if modname in self.repo.modules:
+                    c = self.repo.modules[modname].classes.get(cn)
+        if c is not None and any((dotted(b) or "").split(".")[-1] == "NamedTuple" for b in c.bases):
+            fields = [st.target.id for st in c.body if isinstance(st, ast.AnnAssign) and isinstance(st.target, ast.Name)]
+            return _Record(c.name, fields)
         return None
 
     def resolve_enum(self, name: str):
@@ -500,6 +526,21 @@ class Interp:
             return f"[{inner}]" if isinstance(x, list) else f"({inner}{',' if len(x) == 1 else ''})"
         return str(x)
 
+    def apply(self, f, args):
+        """Call an interpreter-level callable value."""
+        if isinstance(f, _Lam):
+            env2 = dict(f.env)
+            for p_, v_ in zip([a.arg for a in f.node.args.args], args):
+                env2[p_] = v_
+            return self.expr(f.node.body, env2)
+        if isinstance(f, _PyCall):
+            return f.fn(*args)
+        if isinstance(f, _Bound):
+            return self.call_f(f.func, [f.obj] + list(args))
+        if hasattr(f, "node") and hasattr(f, "module"):
+            return self.call_f(f, list(args))
+        raise AnalysisError("absint: value is not callable")
+
     def construct(self, cls: str, args, kwargs):
         lc = self.classes[cls]
         k = lc.kind
@@ -525,6 +566,12 @@ class Interp:
             en = self.resolve_enum(e.id)
             if en is not None:
                 return en
+            mr = self.resolve_module(e.id)
+            if mr is not None:
+                return mr
+            nt = self.resolve_record(e.id)
+            if nt is not None:
+                return nt
             if e.id in self.classes:
                 return _Cls(e.id)
             f = self.mod.funcs.get(e.id)
@@ -578,6 +625,16 @@ class Interp:
                 return _PyCall(lambda it, v=None: dict.fromkeys(self.iterate(it), v))
             if isinstance(base, _EnumCls):
                 return f"{base.name}.{e.attr}"
+            if isinstance(base, _ModRef):
+                if e.attr in base.mod.funcs:
+                    return base.mod.funcs[e.attr]
+                for st in base.mod.tree.body:
+                    if isinstance(st, ast.Assign) and any(isinstance(t, ast.Name) and t.id == e.attr for t in st.targets):
+                        try:
+                            return const_value(st.value)
+                        except ValueError:
+                            raise AnalysisError(f"absint: module constant {base.mod.name}.{e.attr} is not a literal")
+                raise AnalysisError(f"absint: {base.mod.name} has no member {e.attr}")
             if isinstance(base, _Cls) and e.attr == "__name__":
                 return base.name
             if isinstance(base, _Cls):
@@ -589,7 +646,7 @@ class Interp:
                 return _ListMeth(base, e.attr)
             if isinstance(base, dict) and e.attr in ("items", "keys", "values", "get", "setdefault"):
                 return _DictMeth(base, e.attr)
-            if isinstance(base, str) and e.attr in ("replace", "isalnum", "startswith", "endswith", "format", "join", "lower", "upper", "strip", "isidentifier", "split"):
+            if isinstance(base, str) and e.attr in ("replace", "isalnum", "startswith", "endswith", "format", "format_map", "join", "lower", "upper", "strip", "isidentifier", "split"):
                 return _PyCall(getattr(base, e.attr))
             raise AnalysisError(f"absint: attribute `{ast.unparse(e)}` not modelled")
         if isinstance(e, ast.UnaryOp):
@@ -743,15 +800,29 @@ class Interp:
                 return set()
             src = vals[0]
             return set(src) if isinstance(src, (set, frozenset)) else set(self.iterate(src))
-        if fn == "sorted" and len(vals) == 1 and not kw:
+        if fn == "sorted" and len(vals) == 1 and set(kw) <= {"key", "reverse"}:
             src = vals[0]
             items = list(src) if isinstance(src, (set, frozenset)) else self.iterate(src)
+            keyf = kw.get("key")
             try:
-                return sorted(items)
+                if keyf is None:
+                    return sorted(items, reverse=bool(kw.get("reverse", False)))
+                return sorted(items, key=lambda x: self.apply(keyf, [x]), reverse=bool(kw.get("reverse", False)))
             except TypeError:
                 raise AnalysisError("absint: sorted() of incomparable items")
         if fn == "dict" and not vals and not kw:
             return {}
+        if fn == "sum" and 1 <= len(vals) <= 2:
+            tot = vals[1] if len(vals) == 2 else 0
+            for x in self.iterate(vals[0]):
+                tot = self.binop(ast.Add(), tot, x)
+            return tot
+        if fn == "next" and len(vals) == 1 and isinstance(vals[0], list):
+            if not vals[0]:
+                raise Raised("StopIteration")
+            return vals[0][0]
+        if fn == "iter" and len(vals) == 1:
+            return self.iterate(vals[0])
         if fn in ("int", "float"):
             x = vals[0]
             if isinstance(x, Node):
@@ -798,12 +869,26 @@ class Interp:
             return isinstance(x, Node) and (name in x.f or name == "dtype")
         if fn == "type":
             return _Cls(vals[0].cls) if isinstance(vals[0], Node) else type(vals[0])
-        f = self.expr(e.func, env) if fn is None or fn.split(".")[0] in env or fn in self.classes or fn in self.mod.funcs or "." in (fn or "") \
-            or self.resolve_global(fn or "") is not None or fn in self.overrides else None
+        try:
+            f = self.expr(e.func, env)
+        except AnalysisError as ex:
+            if "unknown name" in str(ex) or "not modelled" in str(ex):
+                raise AnalysisError(f"absint: unknown callee `{fn or ast.unparse(e.func)}`")
+            raise
         if f is None:
             raise AnalysisError(f"absint: unknown callee `{fn}`")
         if isinstance(f, _Cls):
             return self.construct(f.name, vals, kw)
+        if isinstance(f, _Record):
+            if len(vals) > len(f.fields):
+                raise Raised("TypeError: too many fields")
+            rec = Node(f.name, **dict(zip(f.fields, vals)))
+            for k_, v_ in kw.items():
+                if k_ not in f.fields:
+                    raise Raised(f"TypeError: unexpected field {k_}")
+                rec.f[k_] = v_
+            rec.f["__fields__"] = list(f.fields)
+            return rec
         if isinstance(f, _Bound):
             return self.call_f(f.func, [f.obj] + vals, kw)
         if isinstance(f, _Lam):
@@ -877,6 +962,17 @@ class _Lam:
     def __init__(self, node, env):
         self.node = node
         self.env = env
+
+
+class _ModRef:
+    def __init__(self, mod):
+        self.mod = mod
+
+
+class _Record:
+    def __init__(self, name, fields):
+        self.name = name
+        self.fields = fields
 
 
 class _EnumCls:
